@@ -161,9 +161,18 @@ def g_prepare(P, tier, tmp, seed, infra):
         if not files:
             continue
         shared = sorted(_os.path.join(ddir, f) for f in _os.listdir(ddir) if f.startswith("zz_s_") and f.endswith(".go"))
+        # the OpenAPI 3 document the generator just wrote, as a Go constant for the harness package
+        import json as _json
+        docp = _os.path.join(moddir, "gen", "http", "openapi3.json")
+        doc = open(docp).read() if _os.path.exists(docp) else "{}"
+        _os.makedirs(_os.path.join(moddir, "_aux"), exist_ok=True)
+        gfile = _os.path.join(moddir, "_aux", "zz_g_openapi.go")
+        open(gfile, "w").write("//go:build verif\n\npackage vh\n\nconst openapiDoc = " + _json.dumps(doc) + "\n")
+        shared.append(gfile)
         jobs.append({"name": "g_" + d, "moddir": moddir, "pkg": "vdesign/vh", "pkgdir": "vh", "pkgname": "vh", "harness_dir": "g",
                      "files": files, "support": ["zz_stubs.go"] + shared, "extra_decl": ["zz_decl_g.go"], "extra_replay": ["zz_replay_g.go"],
-                     "quick": P["quick"], "thorough": P["thorough"], "shards": P.get("shards", {}), "race": P.get("race_g", False)})
+                     "quick": P["quick"], "thorough": P["thorough"], "shards": P.get("shards", {}), "race": P.get("race_g", False),
+                     "assert_include": P.get("assert_include"), "assert_exclude": P.get("assert_exclude")})
     return jobs
 
 
@@ -171,8 +180,9 @@ PROPS["C04"] = {
     "level": "translation_validation",
     "prepare": g_prepare,
     "jobs": [],
-    "designs": ["v1", "v2", "v3"],
+    "designs": ["v1", "v2", "v3", "v4"],
     "harness_tag": "c04",
+    "assert_exclude": r"^openapi:",
     "quick": r"^VerifC04_", "thorough": r"^VerifC04T?_",
     "bounds": {"designs": {"v1": "ints: body Int min/max required, Int64 enum; query Int min; path Int max; header Int32 min",
                            "v2": "floats: exclusive min+max, min, query Int/Float64 exclusive max, UInt max; strings: rune min/max length, enum, pattern, ipv4 format, header max length",
@@ -282,7 +292,7 @@ PROPS["C20"] = {
     },
 }
 
-ALL_DESIGNS = ["v1", "v2", "v3", "a1", "a2", "e1", "s1", "w1", "w2", "c1", "c2", "c3", "c4"]
+ALL_DESIGNS = ["v1", "v2", "v3", "v4", "d1", "a1", "a2", "e1", "s1", "w1", "w2", "c1", "c2", "c3", "c4"]
 
 PROPS["C01"] = {
     "level": "other",
@@ -327,4 +337,22 @@ PROPS["C09"] = {
         "note": "Trusted: gosym executor, z3; os.Stat/OpenFile stubbed for the Render step. The by-product is a concrete run, reported separately in the evidence.",
         "technique": "bounded symbolic execution with symbolic map-iteration permutations + SMT for kernels; concrete repeated generation as by-product",
     },
+}
+
+PROPS["C14"] = {
+    "level": "translation_validation",
+    "prepare": g_prepare,
+    "jobs": [],
+    "designs": ["v1", "v2", "v3", "v4"],
+    "harness_tag": "c04",
+    "assert_include": r"^openapi:|^no-panic$",
+    "quick": r"^VerifC04_v[1234]_(ints|nums|strs|colls|first|second)$", "thorough": r"^VerifC04_v[1234]_(ints|nums|strs|colls|first|second)$",
+    "bounds": {"designs": {"v1": "ints (body, query, path, header)", "v2": "floats with exclusive bounds, UInt, strings with length/enum/pattern", "v3": "arrays, maps, nested user types, query array",
+                           "v4": "two body types sharing member names, required query parameter with a default"},
+               "values": "the symbolic wire requests of the C04 harnesses (same runs, OpenAPI assertions only)"},
+    "assumptions": ["the OpenAPI document is read as goa writes it: numeric exclusiveMinimum/exclusiveMaximum are taken with JSON-Schema draft-06 meaning (a 3.0.x validator such as kin-openapi refuses them; the native replay rewrites them to the boolean form first)",
+                    "format: int32/int64 are range constraints, other formats are advisory and not compared", "NaN parameters, explicit JSON null and unknown extra members are outside the schema's value space"],
+    "outside": ["responses against response schemas (not covered yet)", "validity of the document itself (C07)", "designs outside the catalogue"],
+    "manifest": {"text": "Translation validation between two artefacts the real generator emits for each catalogue design: the parameter and request-body schemas of gen/http/openapi3.json (parsed at check time, evaluated as an SMT predicate over the symbolic wire request by the executor's JSON-schema evaluator) and the generated server (run symbolically as in C04). The solver decides schema(request) <=> server accepts(request) for all values within the bounds; natively every counterexample and witness is re-validated with kin-openapi against the generated server code.",
+                 "note": 'Trusted: gosym executor and its JSON-schema evaluator (cross-checked natively by kin-openapi on every counterexample/witness), z3, the C04 wire model. Five genuine divergences are listed in known_findings.json.'},
 }
